@@ -228,7 +228,8 @@ namespace Dune
      * @brief Copy the elements from another list.
      * @param other The other list.
      */
-    void copyElements(const SLList<T,A>& other);
+    template<typename T1, class A1>
+    void copyElements(const SLList<T1,A1>& other);
 
     /**
      * @brief Delete the next element in the list.
@@ -589,11 +590,12 @@ namespace Dune
   }
 
   template<typename T, typename A>
-  void SLList<T,A>::copyElements(const SLList<T,A>& other)
+  template<typename T1, class A1>
+  void SLList<T,A>::copyElements(const SLList<T1,A1>& other)
   {
     assert(tail_==&beforeHead_);
     assert(size_==0);
-    typedef typename SLList<T,A>::const_iterator Iterator;
+    typedef typename SLList<T1,A1>::const_iterator Iterator;
     Iterator iend = other.end();
     for(Iterator element=other.begin(); element != iend; ++element)
       push_back(*element);
